@@ -20,8 +20,12 @@ DRIVER = 'drv_c12'
 HARNESS = 'c12.cpp'
 SOURCES = ['src/transform/SmartRotation3D.cpp', 'src/geometry/Pose3D.cpp', 'src/geometry/Pose2D.cpp',
            'src/geometry/Position3D.cpp', 'src/geometry/Ellipse.cpp', 'src/regression/leastsquares/LeastSquares.cpp']
-PROOF_MODULES = ['RomeaProofs.Properties.C12']
-TRUSTED = ['finite differences (central, Richardson, long double) of the implementation\'s own maps are computed by '
+PROOF_MODULES = ['RomeaProofs.Properties.C12', 'RomeaProofs.Bridge.C12', 'RomeaProofs.Bridge.C12Cor']
+TRUSTED = ['tools/cxx2lean.py translates SmartRotation3D\'s default constructor, three-angle constructor and init (R_ and the three dRdAngle '
+           'matrices) from the working tree into RomeaModel/Generated/SrcC12.lean on every run; RomeaProofs/Bridge/C12*.lean prove the four '
+           'matrices equal to the model\'s smartInit entry by entry for every scalar type (Eigen Identity()/Zero() read as literal coefficients, '
+           'the fixed-size product as (a0*b0 + a1*b1) + a2*b2); Pose3D.cpp operator* (the 6x6 Jacobian) is NOT translated',
+           'finite differences (central, Richardson, long double) of the implementation\'s own maps are computed by '
            'harness/c12.cpp and judged by tools/props/c12.py with explicit tolerances',
            'Eigen::Affine3d::rotation() and the inverse of J^T J (LDLT / JacobiSVD) are model parameters with contracts; '
            'the driver uses the identity resp. a Gauss-Jordan inverse and the tie compares within 1e-9 relative']
